@@ -182,6 +182,7 @@ fn gen_guest(rng: &mut Rng) -> GuestSpec {
         vec_top: rng.u8(),
         sub_delay: rng.range(1, 8) as u16,
         init_ccr: if rng.chance(1, 2) { Some(rng.u8()) } else { None },
+        stack_off: if rng.chance(1, 2) { 0 } else { 4 * rng.below(64) as u16 },
     }
 }
 
